@@ -2,6 +2,7 @@ import NfpmModel.Spec.MetaSpec
 import NfpmModel.Lemmas.PathLemmas
 import NfpmModel.Lemmas.VersionLemmas
 import NfpmModel.Generated.G11Templates
+import NfpmModel.Generated.G1Arch
 /-
   C02  Metadata fidelity: identity, version, architecture, relations, description.
 
@@ -454,5 +455,9 @@ example :
     = [ { key := b!"Package", first := b!"foo" }, { key := b!"Depends", first := b!"bash, libc6 (>= 2.30)" },
         { key := b!"Description", first := b!"synopsis", conts := [b!"line two", [], b!"after blank"] },
         { key := b!"Vcs-Git", first := b!"git://x" } ] := by decide
+
+/-- the translator regenerated, on this run and from the working tree, every table this property is tied through
+    (when an extraction fails the reviewed table stands in so that the model still compiles, and this stops checking) -/
+theorem translator_tables_regenerated : Generated.extracted_G11Templates = true ∧ Generated.extracted_G1Arch = true := by decide
 
 end Nfpm.Props.C02
